@@ -353,8 +353,10 @@ def main():
 
 
 def write_evidence(pid, tier, seed, mine, myfailed, knownhits, violations, res, wall):
-    proved = {r: v for r, v in mine.items() if v.get('complete', True) is True}
-    bounded = {r: v for r, v in mine.items() if v.get('complete', True) is not True}
+    known_rows = set(r for (r, _) in knownhits)
+    # rows matched by a listed known finding are reported separately: they are neither obligations expected to hold nor discharged
+    proved = {r: v for r, v in mine.items() if v.get('complete', True) is True and r not in known_rows}
+    bounded = {r: v for r, v in mine.items() if v.get('complete', True) is not True and r not in known_rows}
     ok_proved = [r for r in proved if r not in myfailed]
     ok_bounded = [r for r in bounded if r not in myfailed]
     samples = []
@@ -367,7 +369,7 @@ def write_evidence(pid, tier, seed, mine, myfailed, knownhits, violations, res, 
         trusted_base=table.trusted_base(pid, res),
         samples=samples,
         rows=[dict(row=r, backend=mine[r]['kind'], passed=(r not in myfailed), serves=mine[r]['serves']) for r in sorted(mine)],
-        known_findings=[k['text'] for (_, k) in knownhits],
+        known_findings=[dict(row=r, finding=k['text']) for (r, k) in knownhits],
     )
     if 'verus' in res:
         cov['verus'] = {}
